@@ -642,7 +642,8 @@ def run(eng: Engine, ck: Check):
             return None
 
     def field_loop(fn: FuncInfo):
-        loops = [n for n in walk_local(fn.node) if isinstance(n, ast.For) and mentions_attr(n.iter, '_CACHED_FIELDS')]
+        loops = [n for n in walk_local(fn.node) if isinstance(n, ast.For) and (mentions_attr(n.iter, '_CACHED_FIELDS') or
+                                                                               (isinstance(n.iter, ast.Name) and local_mirrors_attr(fn, n.iter.id, '_CACHED_FIELDS')))]
         if len(loops) != 1:
             raise AnalysisError(f'R-C01-DRIVER: {fn.qualname} has {len(loops)} loops over _CACHED_FIELDS (expected 1)')
         return loops[0]
@@ -865,6 +866,19 @@ def run(eng: Engine, ck: Check):
             if comp is not None and len(comp.generators) == 1 and unparse(comp.generators[0].target) in (f"({bd['i']}, {bd['b']})", f"{bd['i']}, {bd['b']}") \
                     and pat.match(comp.generators[0].iter, pat.compile_pattern('enumerate($m)')[0]) is not None:
                 xors.append((n, bd))
+    if not xors:
+        # pairing form: (b ^ kb for b, kb in zip(message, cycle(table))): cycle(table) yields table[i % len(table)] for i = 0, 1, ..; zip
+        # stops with the message
+        for n in [n_ for n_ in walk_local(od.node) if isinstance(n_, ast.BinOp) and isinstance(n_.op, ast.BitXor) and isinstance(n_.left, ast.Name) and isinstance(n_.right, ast.Name)]:
+            comp = next((a_ for a_ in ancestors(n) if isinstance(a_, (ast.GeneratorExp, ast.ListComp))), None)
+            if comp is None or len(comp.generators) != 1 or comp.elt is not n or comp.generators[0].ifs:
+                continue
+            m_ = pat.match(comp.generators[0].iter, pat.compile_pattern('zip($m, cycle($k))')[0]) or \
+                pat.match(comp.generators[0].iter, pat.compile_pattern('zip($m, itertools.cycle($k))')[0])
+            tg = comp.generators[0].target
+            if m_ is not None and isinstance(tg, ast.Tuple) and [unparse(e_) for e_ in tg.elts] in ([n.left.id, n.right.id], [n.right.id, n.left.id]) and \
+                    unparse(tg.elts[1]) != unparse(tg.elts[0]):
+                xors.append((n, {'k': m_['k'], 'n': f"len({m_['k']})", 'm': m_['m']}))
     ok = len(xors) == 1 and nx == 1
     if ok:
         bd = xors[0][1]
@@ -872,7 +886,10 @@ def run(eng: Engine, ck: Check):
         ok = (nexp is not None and pat.match(nexp, pat.compile_pattern(f"len({bd['k']})")[0]) is not None) or bd['n'] == f"len({bd['k']})"
         # the key table that is indexed is the one the rotation loop filled
         ok = ok and bd['k'] == table_name
-    ck.ob('R-C01-OBFUSC', od, od.node, 'the decoder XORs byte i with key-table byte i mod table length (the table filled by the rotation loop)', ok, '',
+    zips_ = [unparse(x_)[:60] for x_ in calls_in(od.node) if call_name(x_) == 'zip']
+    ck.ob('R-C01-OBFUSC', od, od.node, 'the decoder XORs byte i with key-table byte i mod table length (the table filled by the rotation loop)', ok,
+          f'{len(xors)} recognised xor of a payload byte with table[i % len(table)] ({nx} xor operations in decode)' +
+          (f'; pairing {zips_} without cycle() over the table stops at the end of the table (32 keys = 128 bytes): longer payloads are cut' if zips_ else ''),
           construct='decoder xor')
     if enc_rot is None and delegates:
         ok = True
